@@ -209,17 +209,17 @@ def extract(root):
     cur_arm = "?"
     for l in ex.split("\n"):
         code = l.split("//")[0]
-        m = re.match(r"\s*TokenType::(\w+)(?:\s*\|\s*TokenType::\w+)*\s*=>", code)
+        m = re.match(r" {12}TokenType::(\w+)(?:\s*\|\s*TokenType::\w+)*\s*=>", code)
         if m: cur_arm = m.group(1)
-        if re.search(r"\bpos\s*=[^=]", code) and cur_arm not in arms: arms.append(cur_arm)
+        if re.search(r"\bpos\s*=[^=]", code) and "let mut" not in code and cur_arm not in arms: arms.append(cur_arm)
     fr["execPosJumpArms"] = arms
     lsa = []
     cur_arm = "?"
     for l in ex.split("\n"):
         code = l.split("//")[0]
-        m = re.match(r"\s*TokenType::(\w+)(?:\s*\|\s*TokenType::\w+)*\s*=>", code)
+        m = re.match(r" {12}TokenType::(\w+)(?:\s*\|\s*TokenType::\w+)*\s*=>", code)
         if m: cur_arm = m.group(1)
-        if "loop_stack" in code and cur_arm not in lsa: lsa.append(cur_arm)
+        if "loop_stack" in code and "let mut" not in code and cur_arm not in lsa: lsa.append(cur_arm)
     fr["loopStackArms"] = lsa
     T["frame"] = fr
     # ---- documentation tables
